@@ -276,11 +276,18 @@ class ClassDiagram:
         """
         wrapped_cls = self.get_wrapped_class(cls)
         edge_filter_func = lambda edge: isinstance(edge, relation_type)
-        filtered_neighbors = [
-            self._dependency_graph.get_node_data(n)
-            for n, e in self._dependency_graph.adj(wrapped_cls.index).items()
-            if edge_filter_func(e)
-        ]
+        # two classes can be connected by several edges (an inheritance and an association): look at every edge, a
+        # lookup by neighbour (adj) would only see one of them
+        filtered_neighbors = []
+        index = wrapped_cls.index
+        for source, target, edge in list(
+            self._dependency_graph.out_edges(index)
+        ) + list(self._dependency_graph.in_edges(index)):
+            neighbor = self._dependency_graph.get_node_data(
+                target if source == index else source
+            )
+            if edge_filter_func(edge) and neighbor not in filtered_neighbors:
+                filtered_neighbors.append(neighbor)
         return tuple(filtered_neighbors)
 
     @lru_cache(maxsize=None)
@@ -337,8 +344,7 @@ class ClassDiagram:
         Build parent map from inheritance edges: child_idx -> set(parent_idx)
         """
         parent_map: dict[int, set[int]] = {}
-        for u, v in self._dependency_graph.edge_list():
-            rel = self._dependency_graph.get_edge_data(u, v)
+        for u, v, rel in self._dependency_graph.weighted_edge_list():
             if isinstance(rel, Inheritance):
                 parent_map.setdefault(v, set()).add(u)
         return parent_map
@@ -376,8 +382,7 @@ class ClassDiagram:
             values are sets of tuples representing association keys.
         """
         assoc_keys_by_source = {}
-        for u, v in self._dependency_graph.edge_list():
-            rel = self._dependency_graph.get_edge_data(u, v)
+        for u, v, rel in self._dependency_graph.weighted_edge_list():
             if isinstance(rel, Association):
                 assoc_keys_by_source.setdefault(u, set()).add(
                     rel.get_key(include_field_name)
@@ -404,9 +409,9 @@ class ClassDiagram:
         assoc_keys_by_source = result.get_assoc_keys_by_source(include_field_name)
 
         # Mark redundant descendant association edges for removal
-        edges_to_remove: list[tuple[int, int]] = []
-        for u, v in g.edge_list():
-            rel = g.get_edge_data(u, v)
+        # by edge index: two classes can be connected by several edges
+        edges_to_remove: list[int] = []
+        for edge_index, (u, v, rel) in g.edge_index_map().items():
             if not isinstance(rel, Association):
                 continue
 
@@ -417,10 +422,11 @@ class ClassDiagram:
                 inherited_keys |= assoc_keys_by_source.get(anc, set())
 
             if key in inherited_keys:
-                edges_to_remove.append((u, v))
+                edges_to_remove.append(edge_index)
 
         # Remove redundant edges
-        result.remove_edges(edges_to_remove)
+        for edge_index in edges_to_remove:
+            g.remove_edge_from_index(edge_index)
 
         return result
 
@@ -592,9 +598,7 @@ class ClassDiagram:
             node_map[wrapped_class.index] = node
 
         # Build parent-child relationships from edges
-        for edge in self._dependency_graph.edge_list():
-            source_idx, target_idx = edge
-            relation = self._dependency_graph.get_edge_data(source_idx, target_idx)
+        for source_idx, target_idx, relation in self._dependency_graph.weighted_edge_list():
 
             # For inheritance: source is parent class, target is child class
             # In RWXNode: parent class should have child class as its child
